@@ -137,6 +137,14 @@ def c17(tier, rng, seed):
                         gen.sentence(pay, fill, sid=4), gen.sentence(pay, fill, addr=b'AIVDO')])
         h = [b] + P.random_history(rng, rng.choice([0, 2]))
         bases.append(h); twins[id(h)] = a
+    # long runs of transparent lines between two fragments (anything that counts lines to age a group out): one
+    # more such line must change nothing
+    for K in (1, 2, 7, 8, 9, 15, 16, 17, 31, 32, 33, 63, 64, 65, 127, 128, 129, 254, 255, 256):
+        pay, fill = gen.armor(gen.message_bits(rng, rng.choice([5, 8, 21])))
+        f1, f2 = gen.fragment(rng, pay, fill, 2, rng.choice([None, 1]))
+        for kind in range(2):
+            mid = [[gen.valid_sentence(rng), gen.sentence(b'9', 0, 2, 2, 8)][kind] for _ in range(K)]
+            bases.append([f1] + mid + [f2])
     for h in bases:
         pos = rng.randrange(len(h) + 1)
         x = rng.choice(transparent_pool) if rng.random() < 0.7 else rng.choice([gen.valid_sentence(rng), gen.mutate(rng, gen.valid_sentence(rng)), gen.random_line(rng)])
